@@ -267,6 +267,62 @@ func (o *Obligation) slice() ([]bool, map[string]bool) {
 var reCondDef = regexp.MustCompile(`^\(assert \(=> (\S+) \(= (\|[^|]*\||[^\s()]+) `)
 var reArrDef = regexp.MustCompile(`^\(assert \(forall \(\(\S+ Int\)\) \(! \(= \(select (\|[^|]*\||[^\s()]+) `)
 
+// absNonlinear replaces every product of two non-constant terms by an uninterpreted function
+// application (umul x y).  Every model of the real query yields a model of the abstraction
+// (interpret umul as multiplication), so "unsat" carries over; it removes the need for the solver
+// to see that x*s and x*t are equal when s = t is only known through a hypothesis.
+func absNonlinear(txt string) string {
+	if !strings.Contains(txt, "(* ") {
+		return txt
+	}
+	lines := strings.Split(txt, "\n")
+	changed := false
+	var walk func(n *sx) bool
+	walk = func(n *sx) bool {
+		if n.list == nil {
+			return false
+		}
+		ch := false
+		for _, c := range n.list {
+			if walk(c) {
+				ch = true
+			}
+		}
+		if n.head() == "*" && len(n.list) == 3 {
+			_, c1 := parseNum(n.list[1])
+			_, c2 := parseNum(n.list[2])
+			lit := func(m *sx) bool { return m.list == nil && len(m.atom) > 0 && m.atom[0] >= '0' && m.atom[0] <= '9' }
+			if !c1 && !c2 && !lit(n.list[1]) && !lit(n.list[2]) {
+				n.list[0] = &sx{atom: "umul"}
+				ch = true
+			}
+		}
+		return ch
+	}
+	for i, l := range lines {
+		if !strings.Contains(l, "(* ") || !(strings.HasPrefix(l, "(assert") || strings.HasPrefix(l, "(define-fun")) {
+			continue
+		}
+		body, tail := l, ""
+		if k := strings.LastIndex(l, ") ;"); k >= 0 && !strings.Contains(l[k:], "|") {
+			body, tail = l[:k+1], l[k+1:]
+		}
+		n := parseSx(body)
+		if n == nil {
+			continue
+		}
+		if walk(n) {
+			lines[i] = n.String() + tail
+			changed = true
+		}
+	}
+	if !changed {
+		return txt
+	}
+	out := strings.Join(lines, "\n")
+	return strings.Replace(out, "(set-logic ALL)\n", "(set-logic ALL)\n(declare-fun umul (Int Int) Int)\n", 1)
+}
+
 var reWrapDef = regexp.MustCompile(`\(define-fun (wrap_[iu]\d+) \(\(x Int\)\) Int [^\n]*`)
 
 type assertInfo struct {
@@ -373,7 +429,7 @@ func (o *Obligation) solve(dir string, timeoutS int, thorough bool) {
 			}
 		}
 		abs := func(txt string) string {
-			return reWrapDef.ReplaceAllString(txt, "(declare-fun $1 (Int) Int)")
+			return absNonlinear(reWrapDef.ReplaceAllString(txt, "(declare-fun $1 (Int) Int)"))
 		}
 		itxt, changed := o.renderTier(true, true, false, 3)
 		if changed {
@@ -381,7 +437,7 @@ func (o *Obligation) solve(dir string, timeoutS int, thorough bool) {
 			w0, _ := o.renderTier(true, true, true, 0)
 			ws, _ := o.renderTier(true, true, true, 3)
 			wl, _ := o.renderTier(true, true, true, 2)
-			hasWrap := strings.Contains(ws, "(wrap_")
+			hasWrap := strings.Contains(ws, "(wrap_") || abs(ws) != ws
 			if hasWrap {
 				write("weak0abs", abs(w0), false)
 			} else {
@@ -397,8 +453,10 @@ func (o *Obligation) solve(dir string, timeoutS int, thorough bool) {
 				}
 				write("weak2", wl, false)
 			}
-		} else if b, err := os.ReadFile(path); err == nil && bytes.Contains(b, []byte("(wrap_")) {
-			write("abs", abs(string(b)), false)
+		} else if b, err := os.ReadFile(path); err == nil && (bytes.Contains(b, []byte("(wrap_")) || bytes.Contains(b, []byte("(* "))) {
+			if a := abs(string(b)); a != string(b) {
+				write("abs", a, false)
+			}
 		}
 	}
 	defer func() {
